@@ -106,7 +106,7 @@ func c12(e *Env) {
 	r.Analysed["run_phase_functions"] = len(run)
 	// ---- R1 guarded
 	obA := r.Ob("R1", "BaseIP.auditInfo:guarded-by-IP-lock", "every read and write of an IP's cached audit record holds the IP lock")
-	cache := p.FieldVar("scipipe", "BaseIP", "auditInfo")
+	cache := e.auditCacheField()
 	nAcc := 0
 	// entry points: a function that touches the cache is judged in its own right when it is exported (or has no
 	// caller); a private one is judged in the context of every exported entry point that reaches it through
@@ -177,7 +177,7 @@ func c12(e *Env) {
 			held := li.held(li.must[n])
 			ok := false
 			for _, h := range held {
-				if strings.HasSuffix(h, ".lock") {
+				if strings.HasSuffix(h, "."+e.ipLockName()) {
 					ok = true
 				}
 			}
@@ -226,7 +226,7 @@ func c12(e *Env) {
 		{"FileIP.SubStream", "ctor", []string{"NewFileIP", "(*components.StreamToSubStream).Run"}, "assigned on the fresh carrier before its single send (C18.R4)"},
 		{"BaseIP.path", "ctor", []string{"NewBaseIP"}, "immutable after construction"},
 		{"BaseIP.id", "ctor", []string{"NewBaseIP"}, "immutable after construction"},
-		{"FileIP.lock", "ctor", []string{"NewFileIP"}, "immutable after construction"},
+		{"FileIP." + e.ipLockName(), "ctor", []string{"NewFileIP"}, "immutable after construction"},
 		{"FileIP.BaseIP", "ctor", []string{"NewFileIP"}, "immutable after construction"},
 		{"PortInfo.*", "wiring", nil, "filled by initPortsFromCmdPattern while the process is built"},
 		{"Workflow.procs", "wiring", nil, "process registration happens before Run"},
